@@ -947,7 +947,7 @@ class ValueNode(SyntaxNodeBase):
             value = self._print_value
         if self._type == int or self._can_float_to_int_happen():
             temp = "{value:0={sign}{zero_padding}d}".format(
-                value=int(value), **self._formatter
+                value=int(round(value)), **self._formatter
             )
         elif self._type == float:
             # add digits until the text reads back as the value within the tolerance
